@@ -1,4 +1,5 @@
 """C04  Detection floor: dangerous imports and calls are never rated LIKELY_SAFE."""
+import itertools
 from vlib import asm, cells, vocab
 from vlib.refvm import run_ref
 from vlib.runner import Failure, ShardResult, hypothesis_search
@@ -94,6 +95,14 @@ def judge(data, imports_only=False):
         floor, why = import_floor_of(ref.log) if imports_only else floor_of(ref.log)
     except KeyError:
         return None, "unlabelled-module", 0
+    return _rate(data, floor, why)
+
+
+def _rate(data, floor, why):
+    """fickling's side: the lowest verdict any public path gives must not be below the floor"""
+    from fickling.analysis import check_safety
+    from fickling.fickle import Pickled
+
     try:
         p = Pickled.load(data)
         sev = check_safety(p).severity
@@ -105,6 +114,14 @@ def judge(data, imports_only=False):
             again = check_safety(p).severity
             if RANK[again.name] < rank:
                 sev, rank = again, RANK[again.name]
+        # the same opcodes transplanted, through slice assignment, into an object that has
+        # already been analysed as something harmless
+        q = Pickled.load(b"N.")
+        check_safety(q)
+        q[:] = list(Pickled.load(data))
+        moved = check_safety(q).severity
+        if RANK[moved.name] < rank:
+            sev, rank = moved, RANK[moved.name]
     except Exception:  # noqa: BLE001
         return None, "analysis-raised-or-refused", floor
     if rank < floor:
@@ -122,6 +139,8 @@ def judge(data, imports_only=False):
 
 
 def replay(case):
+    if "floor" in case:
+        return _rate(bytes.fromhex(case["hex"]), case["floor"], ("call", case.get("label")))[0]
     return judge(bytes.fromhex(case["hex"]), case.get("imports_only", False))[0]
 
 
@@ -135,8 +154,28 @@ def _plain(cell):
     )
 
 
+def extreme_programs():
+    """a call whose argument is legal but extreme (deeply nested, thousands of digits): floors known
+    by construction (the reference VM's own canonicalisation would hit the recursion limit)"""
+    import struct
+
+    def deep(d, kind):
+        return (b"(" * d + b"l" * d) if kind == "list" else (b"N" + b"\x85" * d)
+
+    big = (10**5000).to_bytes(2100, "little", signed=True)
+    args = {"deep-list-260": deep(260, "list"), "deep-tuple-300": deep(300, "tuple"), "deep-list-150": deep(150, "list"),
+            "int-5000-digits": b"\x8b" + struct.pack("<i", len(big)) + big,
+            "str-100k": b"X" + struct.pack("<I", 100000) + b"a" * 100000}  # fmt: skip
+    callees = [("builtins", n, 5) for n in vocab.EXEC_BUILTINS] + [("__builtin__", "eval", 5), ("builtins", "getattr", 3),
+               ("os", "system", 4), ("foo.bar", "Baz", 3), ("subprocess", "Popen", 4)]  # fmt: skip
+    for (m, n, floor), (an, arg) in itertools.product(callees, args.items()):
+        for tail in (b".", b"0N."):
+            yield f"{m}.{n}({an})", f"c{m}\n{n}\n".encode() + arg + b"\x85R" + tail, floor
+            yield f"{m}.{n}(x, {an})", f"c{m}\n{n}\n".encode() + b"(K\x01" + arg + b"tR" + tail, floor
+
+
 def shards(tier):
-    out = []
+    out = [{"kind": "extreme"}]
     if tier == "quick":
         out += [{"kind": "sample", "n": 1500, "idx": i} for i in range(16)]
     else:
@@ -167,6 +206,16 @@ def _do_cell(res, cell):
 
 def run_shard(spec, seed):
     res = ShardResult()
+    if spec["kind"] == "extreme":
+        for label, data, floor in extreme_programs():
+            f, klass, _ = _rate(data, floor, ("call", label))
+            res.note(None, True, klass=[klass, "extreme-argument"], sample={"call": label, "bytes": len(data)})
+            if f is not None:
+                f.case = {"hex": data.hex(), "floor": floor, "label": label}
+                res.failures.append(f)
+                break
+        res.exhaustive = True
+        return res
     ents = cells.entries_c04()
     if spec["kind"] == "cells":
         n = 0
